@@ -172,7 +172,12 @@ impl TplLitType {
     pub fn describe(&self) -> String {
         match self.0.as_slice() {
             [TplLitTypeItem::StringConst(single_str)] => {
-                let inner = single_str.clone();
+                // the text of a string literal: quotes, backslashes and line breaks are escaped
+                let inner = single_str
+                    .replace('\\', "\\\\")
+                    .replace('"', "\\\"")
+                    .replace('\n', "\\n")
+                    .replace('\r', "\\r");
                 format!("\"{}\"", inner)
             }
             _ => {
@@ -183,7 +188,11 @@ impl TplLitType {
                         TplLitTypeItem::String => "${string}".to_string(),
                         TplLitTypeItem::Number => "${number}".to_string(),
                         TplLitTypeItem::Boolean => "${boolean}".to_string(),
-                        TplLitTypeItem::StringConst(v) => v.clone(),
+                        // text inside a template: backslashes, backticks and `${` are escaped
+                        TplLitTypeItem::StringConst(v) => v
+                            .replace('\\', "\\\\")
+                            .replace('`', "\\`")
+                            .replace("${", "\\${"),
                         TplLitTypeItem::OneOf(values) => {
                             let mut values = values.iter().collect::<Vec<_>>();
                             values.sort();
